@@ -47,6 +47,8 @@ class Sim {
   long clock_yield_ns = 1000;               // advance per yield
   size_t alloc_cap = (size_t)256 << 20;     // single allocation cap while active
   long alloc_fail_nth = -1;                 // n-th "large" (>= 64 KiB) allocation fails
+  long stdio_bufsize = 0;                   // > 0: buffer size given to every simulated FILE stream (a tuning knob varied per run,
+                                            // so that multi-flush paths of small files are exercised)
   uint64_t max_yields = 1000000;
   uint64_t allocs = 0;                      // operator new calls while active (a CPU-bound runaway loop that allocates
   uint64_t max_allocs = 10000000;           //  never yields: this budget turns it into a deterministic HANG verdict)
